@@ -37,24 +37,31 @@ EXTENDS Naturals, Integers, Sequences, FiniteSets, TLC, Json, IOUtils, ResultObj
 FP == INSTANCE FixedPoint
 Traces == JsonDeserialize(IOEnv.TRACE_FILE)
 
-VARIABLES tid, l, jsonSaved, pklTainted, verdict, drift, done
-vars == <<tid, l, jsonSaved, pklTainted, verdict, drift, done>>
+VARIABLES tid, l, Exp, Wts,   \* the expected sample / weights of the trace, evaluated once (in Init)
+          jsonSaved, pklTainted, verdict, drift, done
+vars == <<tid, l, Exp, Wts, jsonSaved, pklTainted, verdict, drift, done>>
 
 T == Traces[tid]
 Dim == Len(T.names)
-WellFormed == /\ Dim >= 1
-              /\ T.kind \in {"sample", "smc", "bolfi"}
-              /\ T.kind # "bolfi" => \A j \in 1..Dim : HasKey(T.okeys, T.names[j])
-              /\ T.kind = "bolfi" => Len(T.chains) >= 1 /\ T.warmup >= 0
+WellFormedT(t) == /\ Len(t.names) >= 1
+                  /\ t.kind \in {"sample", "smc", "bolfi"}
+                  /\ t.kind # "bolfi" => \A j \in 1..Len(t.names) : HasKey(t.okeys, t.names[j])
+                  /\ t.kind = "bolfi" => Len(t.chains) >= 1 /\ t.warmup >= 0
+WellFormed == WellFormedT(T)
 \* the sample the statement expects the object to hold: one column per parameter name, in order
-Exp == IF T.kind = "bolfi" THEN BolfiCols(T.chains, T.warmup, Dim) ELSE ExpCols(T)
+\* (explicit tuples: cheap to compare with the logged ones)
+MatT(f) == f \o <<>>
+ExpOf(t) == IF ~WellFormedT(t) THEN <<>>
+            ELSE LET c == IF t.kind = "bolfi" THEN BolfiCols(t.chains, t.warmup, Len(t.names)) ELSE ExpCols(t)
+                 IN MatT([j \in 1..Len(c) |-> MatT(c[j])])
 NExp == NRows(Exp)
-Wts == WeightsOf(T, NExp)
 Weighted == NExp > 0 /\ WTotal(Wts) > 0
 RECURSIVE Pow2(_)
 Pow2(k) == IF k = 0 THEN 1 ELSE 2 * Pow2(k - 1)
 
 Init == /\ tid \in 1..Len(Traces) /\ l = 1 /\ jsonSaved = FALSE /\ pklTainted = FALSE
+        /\ Exp = ExpOf(Traces[tid])
+        /\ Wts = MatT(WeightsOf(Traces[tid], NRows(ExpOf(Traces[tid]))))
         /\ verdict = "ok" /\ drift = "" /\ done = FALSE
 
 SliceClause == IF T.kind = "bolfi" THEN "P:bolfi-slice" ELSE "P:column-order"
@@ -120,7 +127,7 @@ JudgeM(e) ==
 
 Step ==
   /\ ~done
-  /\ IF l > Len(T.events) THEN done' = TRUE /\ UNCHANGED <<tid, l, jsonSaved, pklTainted, verdict, drift>>
+  /\ IF l > Len(T.events) THEN done' = TRUE /\ UNCHANGED <<tid, l, Exp, Wts, jsonSaved, pklTainted, verdict, drift>>
      ELSE LET e == T.events[l]
               j == JudgeP(e)
               m == IF drift = "" THEN JudgeM(e) ELSE drift
@@ -128,7 +135,7 @@ Step ==
              /\ drift' = m
              /\ done' = (j # "ok")
              /\ l' = l + 1
-             /\ UNCHANGED tid
+             /\ UNCHANGED <<tid, Exp, Wts>>
              /\ jsonSaved' = (jsonSaved \/ (e.ev = "save" /\ e.fmt = "json"))
              /\ pklTainted' = IF e.ev = "save" /\ e.fmt = "pkl" THEN jsonSaved ELSE pklTainted
 
